@@ -5,7 +5,7 @@
   inputs they refuse with the same exception or return related results.
 -/
 import VotelibProofs.Lemmas.PermSTV2
-namespace VL.Perm
+namespace VL.Perm.Stv
 open VL VL.STV VL.C10
 
 /-! ### seats dicts -/
@@ -190,4 +190,4 @@ theorem selectRetained_perm (step : Option Int) {tp‚ÇÅ tp‚ÇÇ : Votes} (ht : tp‚Ç
     ¬∑ exact rfl
     ¬∑ exact slotCands_equiv hs
 
-end VL.Perm
+end VL.Perm.Stv
